@@ -8,6 +8,7 @@ import (
 	"encoding/json"
 	"fmt"
 	"hash/fnv"
+	"math/rand"
 	"os"
 	"runtime"
 	"strings"
@@ -232,6 +233,7 @@ var (
 
 // freeRun: the cooperative scheduler is off (see FreeRun in sym_decl.go)
 var (
+	stressIter int
 	freeRun   bool
 	freeWG    sync.WaitGroup
 	freeAbort atomic.Bool
@@ -318,7 +320,20 @@ func pick(me *thr, id int, mustSwitch bool) *thr {
 
 // Point is one scheduling event before a visible operation.
 func Point() struct{} {
-	if freeRun || len(threads) == 0 {
+	if freeRun {
+		// stress iterations of a free-run replay: random short delays at the
+		// instrumented points shake the interleaving (confirmation only; the
+		// engine found the counterexample)
+		if stressIter > 0 {
+			if n := rand.Intn(8); n == 0 {
+				time.Sleep(time.Duration(rand.Intn(300)) * time.Microsecond)
+			} else if n < 3 {
+				runtime.Gosched()
+			}
+		}
+		return struct{}{}
+	}
+	if len(threads) == 0 {
 		return struct{}{}
 	}
 	me := curThr
@@ -475,8 +490,17 @@ func Yield() {
 // WaitUntil is the cooperative form of "block until f()".
 func WaitUntil(f func() bool) {
 	if freeRun {
-		for !lockedCond(f) && !freeAbort.Load() {
+		for t0 := time.Now(); !lockedCond(f) && !freeAbort.Load(); {
 			time.Sleep(200 * time.Microsecond)
+			if time.Since(t0) > 8*time.Second {
+				mu.Lock()
+				if failed == "" {
+					failed = "no-deadlock"
+					failMsg = "WaitUntil: the condition did not become true within 8s"
+				}
+				mu.Unlock()
+				panic(stop{"blocked forever"})
+			}
 		}
 		if freeAbort.Load() {
 			panic(stop{"a thread stopped the replay"})
@@ -504,6 +528,12 @@ func WaitUntil(f func() bool) {
 // lockedCond evaluates a harness condition; in free-run mode the ghost state it
 // reads is written by other goroutines, FreeMu orders those accesses.
 var FreeMu sync.Mutex
+
+func Ghost(f func()) {
+	FreeMu.Lock()
+	defer FreeMu.Unlock()
+	f()
+}
 
 func lockedCond(f func() bool) bool {
 	FreeMu.Lock()
@@ -555,7 +585,7 @@ func Replay(t *testing.T, entries map[string]func()) {
 	nameCnt = map[string]int{}
 	preds = map[string]bool{}
 	schedInit(cur.Schedule)
-	func() {
+	run := func() {
 		defer func() {
 			if r := recover(); r != nil {
 				if _, ok := r.(stop); ok {
@@ -570,7 +600,22 @@ func Replay(t *testing.T, entries map[string]func()) {
 			}
 		}()
 		f()
-	}()
+	}
+	run()
+	// a free-run entry whose counterexample depends on the interleaving: repeat
+	// with random delays at the instrumented points until it shows (bounded)
+	t0 := time.Now()
+	for freeRun && failed == "" && !assumeBad && len(cur.Schedule) > 0 && stressIter < 200 && time.Since(t0) < 90*time.Second {
+		stressIter++
+		nameCnt = map[string]int{}
+		preds = map[string]bool{}
+		predOrder = nil
+		freeAbort.Store(false)
+		run()
+	}
+	if stressIter > 0 {
+		fmt.Printf("REPLAY-STRESS iterations=%d\n", stressIter)
+	}
 	if budget >= 0 {
 		var ms runtime.MemStats
 		runtime.ReadMemStats(&ms)
